@@ -280,7 +280,7 @@ PROPS = {
                 "sequences, valid programs; NEW (AnalyzedSource::new + errors(): implementation vs model, a PANIC answer is a violation) "
                 "and INC histories of 1-5 edits through AnalyzedSource::update (PANIC answers are violations unless the Lean model of "
                 "the incremental parser predicts exactly that panic: known finding KF-C02-update-panic). " + TEXT_RULE,
-        "unproved_parts": ["lex_parse_total / parse_total ARE theorems (for every text: tokens and a program - no panic, no 'Parser cannot fail'; fuel budgets suffice, no slice / subtraction out of range, loops make progress, recoveries stop in front of the final Eof); NOT theorems: the symbol-table and semantic passes of AnalyzedSource::new, the incremental update path (known finding), the handlers: evaluated on implementation and model",
+        "unproved_parts": ["lex_parse_total / parse_total ARE theorems (for every text: tokens and a program - no panic, no 'Parser cannot fail'; fuel budgets suffice, no slice / subtraction out of range, loops make progress, recoveries stop in front of the final Eof); new_total IS a theorem too (symbol-table and semantic passes never panic on any parsed program); NOT theorems: the incremental update path (known finding), errors() range conversion of every diagnostic, the handlers: evaluated on implementation and model",
                            "invariant of the parser model) is evaluated on implementation and model, not yet a theorem",
                            "the 13 request handlers at every position are exercised by C12-C17's checks; stack exhaustion on deep nesting "
                            "is a runtime effect the model cannot exhibit (nesting bound 64 quick / 512 thorough)"],
